@@ -12,6 +12,12 @@ func init() {
 	register("C09", func(g *Gen) { genC05(g, true) })
 }
 
+// c05Key: a named string type - as a key of an interface-keyed map it is distinct from the
+// plain string of the same text
+type c05Key string
+
+func randScalarFixed(k int) interface{} { return uint64(7) }
+
 type normOpts struct {
 	Sep     string `json:"sep"`
 	VarExp  bool   `json:"varexp"`
@@ -529,6 +535,33 @@ func genC05(g *Gen, c09 bool) {
 					Desc: map[string]interface{}{"kind": "repeat-unpack-refs", "root": descTree(root), "target": kind, "outcomes": ds},
 					Tags: []string{"repeat-unpack", fmt.Sprintf("outcomes=%d", len(cs))}, Nontrivial: true})
 			}
+		}
+		// interface-keyed maps with two distinct keys that spell the same name (a string and a
+		// value of a named string type): whatever such an input means, it means it every time
+		for i := 0; i < n/8+3; i++ {
+			va, vb := randTree(r, tc, 1), randTree(r, tc, 1)
+			if r.Bool() {
+				va, vb = map[string]interface{}{"k": randScalar(r), "x": randScalar(r)}, map[string]interface{}{"k": nil, "y": randScalar(r)}
+			}
+			seen := map[string]bool{}
+			var coqs, descs []string
+			for k := 0; k < runs*2; k++ {
+				in := map[interface{}]interface{}{}
+				ents := [][2]interface{}{{"a", va}, {c05Key("a"), vb}, {"b", randScalarFixed(k)}, {c05Key("c"), true}}
+				perm := r.Perm(len(ents))
+				for _, j := range perm {
+					in[ents[j][0]] = ents[j][1]
+				}
+				c, d, _ := newFromObs(in, normOpts{Sep: "."})
+				if !seen[c] {
+					seen[c] = true
+					coqs = append(coqs, c)
+					descs = append(descs, d)
+				}
+			}
+			g.Add(Case{Coq: fmt.Sprintf("CRepeat %s %s", coqStr("same-name-keys"), coqList(coqs)),
+				Desc: map[string]interface{}{"kind": "repeat-newfrom", "input": fmt.Sprintf("{\"a\": %s, c05Key(\"a\"): %s, ...}", descTree(va), descTree(vb)), "outcomes": descs},
+				Tags: []string{"repeat-newfrom", fmt.Sprintf("outcomes=%d", len(coqs))}, Nontrivial: true})
 		}
 		// C09 also covers merging and unpacking: repeated Merge / Unpack of one input
 		for i := 0; i < n/2; i++ {
